@@ -26,6 +26,8 @@ def op_label(op):
         return 'forward_only' + (':abort' if op.get('abort') else '')
     if k == 'set_mode':
         return 'set_mode:' + op['mode']
+    if k == 'train_burst':
+        return 'train_burst:' + op.get('which', 'both')
     if k == 'perturb_net':
         return 'perturb_net:' + op['style']
     if k == 'perturb_arch':
@@ -229,11 +231,11 @@ def run_twin(case, compare_sections=('params', 'rg', 'flags', 'grads'), probe_fo
             ref_dead = True
             break
         obs_s, exc_s = run(S, side_hook if mids else None)
-        if k in ('train_step', 'backward_only', 'forward_only', 'opt_step', 'perturb_arch', 'perturb_net', 'load_ckpt'):
+        if k in ('train_step', 'train_burst', 'backward_only', 'forward_only', 'opt_step', 'perturb_arch', 'perturb_net', 'load_ckpt'):
             state_op_seen = True
         if obs_r.get('aborted'):
             bump('fault_abort_forward')
-        elif k in ('train_step', 'backward_only', 'forward_only'):
+        elif k in ('train_step', 'train_burst', 'backward_only', 'forward_only'):
             need_forward = False
         if k == 'read_cost':
             for nm_, ob_ in (('R', obs_r), ('S', obs_s)):
